@@ -323,6 +323,25 @@ def a05_action_algebra(ctx):
                           f.bodies[fid]['file'], f.bodies[fid]['line'])
             else:
                 r.sample({'conversion': 'From<%s>' % ty, 'input': label, 'result variants': sorted(got)})
+    # every other function of Action that turns one i8 into an Action (from_analog and whatever is added beside it) follows the same
+    # documented sign table as From<i8>: positive -> Buy, negative -> Sell, zero -> None
+    for d, fid in fns:
+        bj = f.bodies[fid]
+        if d == '<core::action::Action as std::convert::From<i8>>::from' or bj['arg_count'] != 1:
+            continue
+        if bj['locals'][1]['ty'] != 'i8' or bj['locals'][0]['ty'] != 'core::action::Action':
+            continue
+        short = d.rsplit('::', 1)[-1]
+        for label, pin, want in (('positive', (1, 127), {'Buy'}), ('negative', (-128, -1), {'Sell'}), ('zero', (0, 0), {'None'})):
+            ex, outs = run(fid, lambda ex, st, b, pin=pin: [ex.mk_int(st, 'i8', pin[0], pin[1])])
+            got = variants_of(ex, outs or [])
+            key = 'sign|%s(i8)|%s' % (short, label)
+            r.inst(key)
+            if not got or not got <= want:
+                r.violate(key + '|' + '+'.join(sorted(got - want)), '%s of a %s i8 can give %s (expected %s, as From<i8> and the documentation say)' % (
+                    short, label, sorted(got - want), sorted(want)), bj['file'], bj['line'])
+            else:
+                r.sample({'conversion': short + '(i8)', 'input': label, 'result variants': sorted(got)})
     # From<Option<X>>: None -> Action::None, Some(x) -> the sign class of x
     for ty, pins in (('f64', (('positive', ('float', 5e-324, INF, False), {'Buy'}), ('negative', ('float', -INF, -5e-324, False), {'Sell'}))),
                      ('f32', (('positive', ('float', 1e-45, INF, False), {'Buy'}), ('negative', ('float', -INF, -1e-45, False), {'Sell'}))),
